@@ -120,6 +120,7 @@ type Sim struct {
 	TraceOn          bool
 	genesisTime      uint32
 	Adv              *Adversary
+	TopicBlackout    map[string]bool // gossip topics on which nothing gets through at the moment (fault)
 	OnAdversaryBlock func(b *blockchain.Block)
 }
 
@@ -127,7 +128,7 @@ func simrtNowUnix() int64 { return simrt.C.NowTrue().Unix() }
 
 func NewSim(t *rapid.T, p *ChainParams, vals []*Validator) *Sim {
 	s := &Sim{T: t, P: p, Vals: vals, group: map[p2p.PeerID]int{}, seen: map[p2p.PeerID]map[[32]byte]bool{}, banned: map[p2p.PeerID]map[p2p.PeerID]bool{},
-		penalty: map[p2p.PeerID]map[p2p.PeerID]int{}, Stats: map[string]int{}}
+		penalty: map[p2p.PeerID]map[p2p.PeerID]int{}, Stats: map[string]int{}, TopicBlackout: map[string]bool{}}
 	simrt.ResetClock()
 	simrt.C.SetSkew(func() time.Duration {
 		if s.cur != nil {
@@ -515,6 +516,10 @@ func (s *Sim) flushOutbox() {
 
 // fanout schedules delivery of a gossip message from `sender` to its neighbours (except `origin`).
 func (s *Sim) fanout(sender, origin p2p.PeerID, topic string, data []byte) {
+	if s.TopicBlackout[topic] {
+		s.Stats["gossip_topic_blackout"]++
+		return
+	}
 	for _, to := range s.Peers(sender) {
 		if to == origin {
 			continue
